@@ -298,7 +298,13 @@ SPELLINGS = [
     "{'a': {'b': '}}'}}['a']['b']", "[x for x in ('}', '|')][1]", "dd.get('a|b', '}')", "max(1, 2)", "'}' * 2",
     '"""a}b|c"""', "len('}}}')", "(1,\n 2)[1]", "[\n'|'\n][0]", "{'k':\n'v|'}['k']", "'é|ü'", "'\\\\'", "'\\\\' + '}'",
     "str({'}': 1})", "'a' 'b|'", "('(' + ')')", "'[' + '{'", "(lambda: '}')()", "{'|': '|'}['|']",
+    # string literals that span lines: their value must not pick up anything from the generated module's layout
+    "\'\'\'a\nb\'\'\'", '"""x|\n}y\n  z"""', "'one \\\ntwo'", "('p'\n   \'\'\'q\nr\'\'\')", '"""\n"""', "\'\'\'t\n\n\tu\'\'\'", "f\'\'\'{1}\n{2}\'\'\'",
 ]
+# the same expression below a control line and inside a def (deeper indentation in the generated module)
+WRAPS = [("<", ">", "<", ">"), ("\n% if True:\n<", ">\n% endif\n", "\n<", ">\n"), ('<%def name="w_()"><', '></%def>${w_()}', "<", ">"),
+         ('<%def name="w_()">\n% for i_ in (1,):\n% if i_:\n<', '>\n% endif\n% endfor\n</%def>${w_()}', "\n<", ">\n")]
+
 
 
 def run_scanner(case, res):
@@ -313,22 +319,23 @@ def run_scanner(case, res):
         for E in case["filters"]:
             for pad in ("", " ", "\n"):
                 expr = "${" + pad + spelling + pad + ((" | " if pad else "|") + ",".join(E) if E else "") + pad + "}"
-                text = MODULE_BLOCK + "<" + expr + ">"
-                exp = "<" + pipeline(value, ["str"], [], E)[0] + ">"
-                res.evaluations += 1
-                res.count("spellings_rendered")
-                what = "expression %r" % expr
-                try:
-                    out = T(text).render_unicode(cf=cf, **env)
-                except Exception as e:
-                    res.violate("scanner-raises", "%s raised %s: %s (value %r)" % (what, type(e).__name__, e, value), witness=what,
-                                replay_case={"kind": "scanner", "spellings": [spelling], "filters": [E]})
-                    continue
-                if out != exp:
-                    res.violate("scanner-output", "%s rendered %r, expected %r" % (what, out, exp), witness=what,
-                                replay_case={"kind": "scanner", "spellings": [spelling], "filters": [E]})
-                if any(c in spelling for c in "|}#\n"):
-                    res.nontrivial("sc", expr)
+                for wp, ws, ep, es in (WRAPS if "\n" in spelling else WRAPS[:1]):
+                    text = MODULE_BLOCK + wp + expr + ws
+                    exp = ep + pipeline(value, ["str"], [], E)[0] + es
+                    res.evaluations += 1
+                    res.count("spellings_rendered")
+                    what = "expression %r" % expr + ("" if wp == "<" else " written as %r" % (wp + "..." + ws))
+                    try:
+                        out = T(text).render_unicode(cf=cf, **env)
+                    except Exception as e:
+                        res.violate("scanner-raises", "%s raised %s: %s (value %r)" % (what, type(e).__name__, e, value), witness=what,
+                                    replay_case={"kind": "scanner", "spellings": [spelling], "filters": [E]})
+                        continue
+                    if out != exp:
+                        res.violate("scanner-output", "%s rendered %r, expected %r" % (what, out, exp), witness=what,
+                                    replay_case={"kind": "scanner", "spellings": [spelling], "filters": [E]})
+                    if any(c in spelling for c in "|}#\n"):
+                        res.nontrivial("sc", expr)
     res.sample = {"scanner": case["spellings"][:3]}
 
 
